@@ -93,7 +93,7 @@ struct PgmClass {
         sim::Env e = env_from_plan(p);
         std::string sig;
         bool scale = scale_slot(g) && std::is_integral_v<K> && g.prop != "C04";
-        if (scale) sig = set_scale_recipe<K>(p, E, cfg, work, false);
+        if (scale) sig = set_scale_recipe<K>(p, E, cfg, work, false, std::is_same_v<F, float>);
         else sig = gen_keys_into<K>(p, n, E, chunks_for(e, n), cfg, work, short_segments);
         p.set("motifs", sig);
         p.set("qseed", work.next() >> 1);
